@@ -59,6 +59,8 @@ struct DescT
     std::vector<Cell> cells;
     std::vector<FieldT<Obj>> fields;
     std::vector<GroupT<Obj>> groups;
+    // Packet only: replaces the payload by one derived from `value` and returns what `data` must read afterwards
+    std::function<Bytes(Obj&, uint64_t value)> payloadSetter;
     std::function<Obj(const Bytes& image)> fromImage;  // object whose raw header bytes are `image` (+ optional data)
     std::function<Bytes(const Obj&)> image;            // raw header bytes
     std::function<Bytes(const Obj&)> data;             // data bytes that no setter may touch
@@ -243,6 +245,23 @@ inline DescT<lib::Packet> descPacket()
             b.insert(b.end(), pl.getRawPayload(), pl.getRawPayload() + pl.getLength());
         }
         return b;
+    };
+    // setPayload is a setter like the others: the payload field reads back exactly what was passed - any type the factory knows,
+    // any bytes (also ones the wire validators reject: error flags, inner lengths beyond the data), any length
+    d.payloadSetter = [](Obj& o, uint64_t v) {
+        static const uint32_t types[] = {lib::PayloadType::can,      lib::PayloadType::canFd,     lib::PayloadType::lin,         lib::PayloadType::analog,
+                                         lib::PayloadType::ethernet, lib::PayloadType::cmStatMsg, lib::PayloadType::ifStatMsg,   lib::PayloadType::userDefined,
+                                         lib::PayloadType::flexRay,  lib::PayloadType::vendorStatMsg, 0x0201u /* control */, 0xFF20u /* vendor */};
+        const uint32_t t = types[(v & 0x7F) % (sizeof(types) / sizeof(types[0]))];  // bits 0..6 type, 7 all-ones, 8..15 length, 16.. content
+        const size_t n = static_cast<size_t>((v >> 8) % 80);
+        Bytes b = fillBytes(static_cast<uint32_t>(v >> 16), n);
+        if ((v >> 7) & 1)
+            std::fill(b.begin(), b.end(), uint8_t(0xFF));  // every flag, every length field at its maximum
+        static const uint8_t dummy = 0;
+        o.setPayload(lib::Payload(lib::PayloadType(t), b.empty() ? &dummy : b.data(), b.size()));
+        Bytes expect = {static_cast<uint8_t>(t >> 8), static_cast<uint8_t>(t)};
+        expect.insert(expect.end(), b.begin(), b.end());
+        return expect;
     };
     d.makeDefault = [] { return Obj{}; };
     return d;
